@@ -51,9 +51,18 @@ func ZZC18Write() {
 	if inject != 0 {
 		k = 1 + zzChoice("k", K)
 	}
+	errno := 0
+	if inject == 1 {
+		errno = zzChoice("errno", 3)
+	}
+	if !zzSymbolic() && inject != 0 {
+		// native confirmation: real binary, real file, injection by strace at every system call
+		zzNativeInject(path, orig, want, parsable, mode, inject == 2, []string{"ENOSPC", "EIO", "EACCES"}[errno])
+		return
+	}
 	switch inject {
 	case 1:
-		zzFSFaultAt(k, zzChoice("errno", 3))
+		zzFSFaultAt(k, errno)
 	case 2:
 		zzFSCrashAt(k)
 	}
